@@ -209,6 +209,19 @@ func RunC11(ch *core.Chooser, env *Env) *Outcome {
 		lists = append(lists, disk.ListPlan{ID: id, Text: genContent(ch, hosts, knob, maxLines), IgnoreCosmetic: ch.Intn("list.igncos", 3) == 2})
 		ch.End()
 	}
+	// now and then a list of a few hundred ordinary lines (8-25 KiB): several
+	// refills of the scanner's buffer while the engines are being built, host
+	// names that occur in many lines, and more engine questions than usual
+	medium := ch.Intn("c11.medium", 12) == 11
+	if medium {
+		ml := workload.GenList(ch, workload.DNSKinds, hosts, 250, 600, 99)
+		sep := ""
+		if lists[0].Text != "" && !strings.HasSuffix(lists[0].Text, "\n") {
+			sep = "\n"
+		}
+		lists[0].Text += sep + strings.Join(ml, "\n") + "\n"
+		out.Probes["runs_with_a_list_of_hundreds_of_lines"]++
+	}
 	// rarely: tens of thousands of short lines, so that offsets pass 64 KiB
 	// and 1 MiB (only a sample of the indexes is retrieved then)
 	many := ch.Intn("c11.many", 400) == 399
@@ -361,7 +374,11 @@ func RunC11(ch *core.Chooser, env *Env) *Outcome {
 	}
 	opKinds := []int{workload.OpDNS, workload.OpDNS, workload.OpWeb, workload.OpMatchAll, workload.OpMatch, workload.OpCosmetic}
 	var reqs []workload.Op
-	for i := 0; i < 8; i++ {
+	nreq := 8
+	if medium {
+		nreq = 40
+	}
+	for i := 0; i < nreq; i++ {
 		reqs = append(reqs, workload.GenOpFor(ch, hosts, opKinds, planLines(lists)))
 	}
 	var engineAnswers [][]string
@@ -453,8 +470,15 @@ func RunC11(ch *core.Chooser, env *Env) *Outcome {
 			if many && cfg.name != "string" {
 				return
 			}
-			// engines over this backing
-			e := workload.NewEngines(b.Storage)
+			// engines over this backing, built on a COLD storage (new list
+			// objects over the same bytes): construction must not depend
+			// on what has been retrieved before
+			cold, cerr := b.Clone(false)
+			if cerr != nil {
+				return
+			}
+			defer cold.Cleanup()
+			e := workload.NewEngines(cold.Storage)
 			var ans []string
 			for i := range reqs {
 				ans = append(ans, workload.Exec(e, &reqs[i]).CanonFull())
